@@ -510,9 +510,24 @@ class PiecewiseConstantCoalescentGrid(AbstractCoalescentDistribution):
 
     def sufficient_statistics(self, node_heights: torch.Tensor):
         node_mask_sorted, lchoose2, durations = self._sorted_terms(node_heights)
-        groups = torch.tensor_split(
-            lchoose2 * durations, torch.where(node_mask_sorted == 0)[0]
-        )
+        if node_mask_sorted.dim() > 1:
+            # one row per sample: each sample has its own ordering of the events
+            terms = (lchoose2 * durations).reshape(-1, lchoose2.shape[-1])
+            masks = node_mask_sorted.reshape(-1, node_mask_sorted.shape[-1])
+            statistics = [
+                self._sufficient_statistics(term, mask)
+                for term, mask in zip(terms, masks)
+            ]
+            batch_shape = node_mask_sorted.shape[:-1]
+            return (
+                torch.stack([s[0] for s in statistics]).reshape(batch_shape + (-1,)),
+                torch.stack([s[1] for s in statistics]).reshape(batch_shape + (-1,)),
+            )
+        return self._sufficient_statistics(lchoose2 * durations, node_mask_sorted)
+
+    @staticmethod
+    def _sufficient_statistics(terms: torch.Tensor, node_mask_sorted: torch.Tensor):
+        groups = torch.tensor_split(terms, torch.where(node_mask_sorted == 0)[0])
         sufficient_statistics = torch.tensor(list(map(torch.sum, groups)))
         groups = torch.tensor_split(
             node_mask_sorted == -1, torch.where(node_mask_sorted == 0)[0]
